@@ -576,4 +576,71 @@ theorem withinTol_iff (tol : Rat) (A : List Pt) (p : Pt) : withinTol tol A p = t
     (inRing A p = true ∨ ∃ e ∈ edges A, ∃ q, onSeg e.1 e.2 q = true ∧ d2 q p ≤ tol * tol) := by
   simp only [withinTol, Bool.or_eq_true, List.any_eq_true, segNear_iff]
 
+/-! ### the envelope prefilter of the tree never removes a true hit -/
+
+theorem inBBox_iff (vs : List Pt) (p : Pt) : inBBox vs p = true ↔
+    (∃ a ∈ vs, a.x ≤ p.x) ∧ (∃ a ∈ vs, p.x ≤ a.x) ∧ (∃ a ∈ vs, a.y ≤ p.y) ∧ (∃ a ∈ vs, p.y ≤ a.y) := by
+  simp only [inBBox, Bool.and_eq_true, List.any_eq_true, decide_eq_true_eq, and_assoc]
+
+/-- Two vertex lists whose bounding boxes share a point have overlapping envelopes. -/
+theorem envOverlap_of_common {A B : List Pt} {q : Pt} (ha : inBBox A q = true) (hb : inBBox B q = true) :
+    envOverlap A B = true := by
+  obtain ⟨⟨a1, ha1, h1⟩, ⟨a2, ha2, h2⟩, ⟨a3, ha3, h3⟩, ⟨a4, ha4, h4⟩⟩ := (inBBox_iff A q).mp ha
+  obtain ⟨⟨b1, hb1, k1⟩, ⟨b2, hb2, k2⟩, ⟨b3, hb3, k3⟩, ⟨b4, hb4, k4⟩⟩ := (inBBox_iff B q).mp hb
+  simp only [envOverlap, Bool.and_eq_true, List.any_eq_true, decide_eq_true_eq]
+  exact ⟨⟨⟨⟨a1, ha1, b2, hb2, le_trans h1 k2⟩, ⟨b1, hb1, a2, ha2, le_trans k1 h2⟩⟩,
+    ⟨a3, ha3, b4, hb4, le_trans h3 k4⟩⟩, ⟨b3, hb3, a4, ha4, le_trans k3 h4⟩⟩
+
+/-- `bbox_sound` for two polygons: if they meet, their bounding boxes overlap. -/
+theorem envOverlap_of_ringsMeet {A B : List Pt} (h : ringsMeet A B = true) : envOverlap A B = true := by
+  obtain ⟨q, h1, h2⟩ := ringsMeet_sound A B h
+  exact envOverlap_of_common (inBBox_of_inRing h1) (inBBox_of_inRing h2)
+
+theorem abs_coord_le {dx dy ρ : Rat} (hρ : 0 ≤ ρ) (h : dx * dx + dy * dy ≤ ρ * ρ) : -ρ ≤ dx ∧ dx ≤ ρ := by
+  constructor
+  · by_contra hc; nlinarith [mul_self_nonneg dy, not_le.mp hc]
+  · by_contra hc; nlinarith [mul_self_nonneg dy, not_le.mp hc]
+
+/-- `bbox_sound` for a disc / a point with a tolerance: a polygon point within `ρ` of the centre puts the
+    polygon's bounding box within the square of half side `ρ`. -/
+theorem discEnv_of_near {A : List Pt} {q ctr : Pt} {ρ : Rat} (hρ : 0 ≤ ρ) (hq : inBBox A q = true)
+    (hd : d2 q ctr ≤ ρ * ρ) : discEnvOverlap ctr ρ A = true := by
+  obtain ⟨⟨a1, ha1, h1⟩, ⟨a2, ha2, h2⟩, ⟨a3, ha3, h3⟩, ⟨a4, ha4, h4⟩⟩ := (inBBox_iff A q).mp hq
+  simp only [d2] at hd
+  have hx := abs_coord_le hρ hd
+  have hy := abs_coord_le (dx := q.y - ctr.y) (dy := q.x - ctr.x) hρ (by linarith)
+  simp only [discEnvOverlap, Bool.and_eq_true, List.any_eq_true, decide_eq_true_eq]
+  exact ⟨⟨⟨⟨a1, ha1, by linarith⟩, ⟨a2, ha2, by linarith⟩⟩, ⟨a3, ha3, by linarith⟩⟩, ⟨a4, ha4, by linarith⟩⟩
+
+/-- The envelope test of the tree is implied by the exact predicate, so the two-stage evaluation of
+    `find_lanelet_by_shape` (tree query, then `intersects`) is the exact predicate alone. -/
+theorem treeMeets_eq (A : List Pt) (s : Prim) : treeMeets A s = ringMeets A s := by
+  unfold treeMeets
+  cases h : ringMeets A s
+  · simp
+  · have : primEnvOverlap A s = true := by
+      cases s with
+      | rect l w ctr c s => exact envOverlap_of_ringsMeet h
+      | poly vs => exact envOverlap_of_ringsMeet h
+      | circ r ctr =>
+        simp only [ringMeets] at h
+        have hr : 0 ≤ exportedRadius r := by
+          simp only [discMeetsRing, Bool.and_eq_true, decide_eq_true_eq] at h; exact h.1
+        obtain ⟨q, hq, hd⟩ := discMeetsRing_sound ctr _ A h
+        simp only [inDisc, Bool.and_eq_true, decide_eq_true_eq] at hd
+        exact discEnv_of_near hr (inBBox_of_inRing hq) hd.2
+    simp [this]
+
+/-- The same for `find_lanelet_by_position` (`dwithin` with a non-negative tolerance). -/
+theorem treeWithin_eq (tol : Rat) (htol : 0 ≤ tol) (A : List Pt) (p : Pt) : treeWithin tol A p = withinTol tol A p := by
+  unfold treeWithin
+  cases h : withinTol tol A p
+  · simp
+  · obtain ⟨q, hq, hd⟩ := withinTol_sound tol A p h
+    simp [discEnv_of_near htol (inBBox_of_inRing hq) hd]
+
+/-- A point of the polygon is within every tolerance of it. -/
+theorem withinTol_of_inRing (tol : Rat) (A : List Pt) (p : Pt) (h : inRing A p = true) : withinTol tol A p = true := by
+  simp [withinTol, h]
+
 end CR.Geom
